@@ -56,8 +56,8 @@ func (p *Prog) notifAt(st *State, e *Expr) (NotifVal, bool) {
 type ErrClass struct {
 	Kind  string // "nil", "notificationError", "Notification", "TreatAsWithdraw", "AttrDiscard", "wrapped", "joined", "other"
 	Notif *NotifVal
-	Out   ISet  // for notificationError
-	Code  ISet  // attribute code for update errors
+	Out   ISet    // for notificationError
+	Code  ISet    // attribute code for update errors
 	Inner []*Expr // wrapped / joined operands
 	Expr  *Expr
 }
